@@ -1,3 +1,380 @@
-(* placeholder, being written *)
-From Coq Require Import ZArith List Bool Lia.
-From NV Require Import Base.Result Base.Bytes Model.TagAct Model.TagReadAny Model.TagReadAnyB.
+(* C08, Type 2 / Type 1: the readers of Model/TagReadAny.v on ARBITRARY readable memory return no NDEF or an
+   NDEF state whose octets were read from non-reserved addresses inside the data area and whose length does
+   not exceed the capacity; never Crash, never Hang.  The demand-instrumented variants compute the same
+   result, and the demand is bounded. *)
+From Coq Require Import ZArith List Bool Lia ZifyBool.
+From NV Require Import Base.Result Base.Bytes Model.TlvMem Model.T2T Model.T1T Model.TagReadAny
+  Proofs.TlvLib Proofs.T2TRead.
+Import ListNotations.
+Open Scope Z_scope.
+Ltac Zify.zify_post_hook ::= Z.to_euclidean_division_equations.
+
+(* ------------------------------------------------------------ bytes *)
+Lemma get_byte em a : bytes_ok em -> 0 <= get em a < 256.
+Proof.
+  intro Hb. unfold get. destruct (nth_in_or_default (Z.to_nat a) em 0) as [Hi | ->]; [|lia].
+  unfold bytes_ok in Hb. rewrite Forall_forall in Hb. apply Hb, Hi.
+Qed.
+Lemma rd_byte em a x : bytes_ok em -> rd em a = Ok x -> 0 <= x < 256.
+Proof. intros Hb H. apply rd_inv in H as [_ ->]. apply get_byte, Hb. Qed.
+Lemma rd_cases em a : 0 <= a -> (exists x, rd em a = Ok x) \/ rd em a = tag_err.
+Proof.
+  intro H. unfold rd. replace (a <? 0) with false by lia.
+  destruct (nth_error em (Z.to_nat a)); [left; eauto | right; reflexivity].
+Qed.
+Lemma read_val_cases skip : forall suf a k, (exists r, read_val skip a suf k = Ok r) \/ read_val skip a suf k = tag_err.
+Proof.
+  induction suf as [|x suf IH]; intros a k.
+  - destruct k; cbn; [left; eauto | right; reflexivity].
+  - destruct k as [|k]; [cbn; left; eauto|]. cbn [read_val]. destruct (in_skip skip a); [apply IH|].
+    destruct (IH (a + 1) k) as [[r ->] | ->]; cbn; [left; eauto | right; reflexivity].
+Qed.
+
+(* read_tlv never crashes; its length is -1 or what the length field says *)
+Lemma read_tlv_cases em off skip : bytes_ok em -> 0 <= off ->
+  (exists t l v e, read_tlv em off skip = Ok (t, l, v, e) /\ -1 <= l /\ len v = Z.max l 0 /\ off < e) \/
+  read_tlv em off skip = tag_err.
+Proof.
+  intros Hb Ho. unfold read_tlv.
+  destruct (rd_cases em off Ho) as [[t ->] | ->]; [|right; reflexivity]. cbn [bind].
+  destruct ((t =? 0) || (t =? 254)).
+  { left. exists t, (-1), [], (off + 1). repeat split; try lia. }
+  destruct (rd_cases em (off + 1)) as [[l0 E1] | ->]; [lia | | right; reflexivity]. rewrite E1. cbn [bind].
+  pose proof (rd_byte _ _ _ Hb E1) as B0.
+  destruct (l0 =? 255).
+  - destruct (rd_cases em (off + 2)) as [[h E2] | ->]; [lia | | right; reflexivity]. rewrite E2. cbn [bind].
+    destruct (rd_cases em (off + 3)) as [[lo E3] | ->]; [lia | | right; reflexivity]. rewrite E3. cbn [bind fst snd].
+    pose proof (rd_byte _ _ _ Hb E2). pose proof (rd_byte _ _ _ Hb E3).
+    destruct (read_val_cases skip (skipn (Z.to_nat (off + 4)) em) (off + 4) (Z.to_nat (256 * h + lo))) as [[[v e] E] | ->];
+      [|right; reflexivity].
+    rewrite E. cbn [bind fst snd]. left. exists t, (256 * h + lo), v, e.
+    apply read_val_bounds in E as (Hb1 & Hl & _). unfold len. repeat split; try lia.
+  - cbn [bind fst snd].
+    destruct (read_val_cases skip (skipn (Z.to_nat (off + 2)) em) (off + 2) (Z.to_nat l0)) as [[[v e] E] | ->];
+      [|right; reflexivity].
+    rewrite E. cbn [bind fst snd]. left. exists t, l0, v, e.
+    apply read_val_bounds in E as (Hb1 & Hl & _). unfold len. repeat split; try lia.
+Qed.
+
+Lemma ctl_range_ok f clip v : length v = 3%nat -> exists r, ctl_range f clip v = Ok r.
+Proof. destruct v as [|a [|b [|c [|d v]]]]; try discriminate. intros _. cbn. eauto. Qed.
+
+Lemma t2_dispatch_cases skip t l v : len v = Z.max l 0 ->
+  exists a, t2_dispatch skip t l v = Ok a.
+Proof.
+  intro Hl. unfold t2_dispatch. destruct (t =? 0); [eauto|].
+  destruct (t =? 1).
+  { destruct (Z.eqb_spec l 3); [|eauto]. destruct (ctl_range_ok lock_byte_range 1048576 v) as [r ->]; [unfold len in Hl; lia|]. cbn. eauto. }
+  destruct (t =? 2).
+  { destruct (Z.eqb_spec l 3); [|eauto]. destruct (ctl_range_ok rsvd_byte_range 1048576 v) as [r ->]; [unfold len in Hl; lia|]. cbn. eauto. }
+  destruct (t =? 3); [eauto|]. destruct (t =? 254); eauto.
+Qed.
+Lemma t1_dispatch_any_cases skip t l v : len v = Z.max l 0 ->
+  exists a, t1_dispatch_any skip t l v = Ok a.
+Proof.
+  intro Hl. unfold t1_dispatch_any. destruct (t =? 0); [eauto|].
+  destruct (t =? 1).
+  { destruct (Z.eqb_spec l 3); [|eauto]. destruct (ctl_range_ok lock_byte_range 2048 v) as [r ->]; [unfold len in Hl; lia|]. cbn. eauto. }
+  destruct (t =? 2).
+  { destruct (Z.eqb_spec l 3); [|eauto]. destruct (ctl_range_ok rsvd_byte_range 2048 v) as [r ->]; [unfold len in Hl; lia|]. cbn. eauto. }
+  destruct (t =? 3); [eauto|]. destruct (t =? 254); eauto.
+Qed.
+Lemma t1_dispatch_any_found skip t l v : t1_dispatch_any skip t l v = Ok Found -> t = 3.
+Proof. unfold t1_dispatch_any. destruct (Z.eqb_spec t 0); [discriminate|].
+  destruct (Z.eqb_spec t 1); [destruct (l =? 3); [destruct (ctl_range _ _ _); discriminate | discriminate]|].
+  destruct (Z.eqb_spec t 2); [destruct (l =? 3); [destruct (ctl_range _ _ _); discriminate | discriminate]|].
+  destruct (Z.eqb_spec t 3); [auto|]. destruct (t =? 254); discriminate. Qed.
+
+(* ------------------------------------------------------------ the Type 2 walk *)
+(* never Crash / Hang; a TLV that is found lies at or behind the start of the walk *)
+Lemma t2_walk_total : forall fuel em dend skip off inner hw, bytes_ok em -> 0 <= off ->
+  t2_walk fuel em dend skip off inner hw = Ok None \/
+  exists o s v h, t2_walk fuel em dend skip off inner hw = Ok (Some (o, s, v, h)) /\ off <= o.
+Proof.
+  induction fuel as [|f IH]; intros em dend skip off inner hw Hb Ho; [left; reflexivity|].
+  cbn [t2_walk]. destruct (negb inner && (dend <=? off)); [left; reflexivity|].
+  destruct (in_skip skip off).
+  { destruct (IH em dend skip (off + 1) true hw Hb) as [-> | (o & s & v & h & -> & Hle)]; [lia | left; reflexivity |].
+    right. exists o, s, v, h. split; [reflexivity | lia]. }
+  destruct (read_tlv_cases em off skip Hb Ho) as [(t & l & v & e & -> & Hl & Hv & He) | ->]; [|left; reflexivity].
+  destruct (t2_dispatch_cases skip t l v Hv) as [[skip'| |] ->]; [| right; exists off, skip, v, hw; split; [reflexivity | lia] | left; reflexivity].
+  destruct (IH em dend skip' (off + l + 1 + (if l <? 255 then 1 else 3)) false (Z.max hw e) Hb) as [-> | (o & s & v' & h & -> & Hle)];
+    [destruct (l <? 255); lia | left; reflexivity |].
+  right. exists o, s, v', h. split; [reflexivity | destruct (l <? 255); lia].
+Qed.
+
+(* ------------------------------------------------------------ values inside the data area *)
+(* if the value is not longer than the number of free addresses in [a, a + n) the last address read is below a + n *)
+Lemma read_val_fits skip : forall suf a k v e n, read_val skip a suf k = Ok (v, e) ->
+  Z.of_nat k <= count_free skip a n -> e <= a + Z.of_nat n.
+Proof.
+  induction suf as [|x suf IH]; intros a k v e n H Hc.
+  - destruct k; cbn in H; [|discriminate]. injection H as <- <-. lia.
+  - destruct k as [|k]; [cbn in H; injection H as <- <-; lia|].
+    cbn [read_val] in H. destruct n as [|n]; [cbn in Hc; lia|]. cbn [count_free] in Hc.
+    destruct (in_skip skip a).
+    + apply (IH _ _ _ _ n) in H; lia.
+    + destruct (read_val skip (a + 1) suf k) as [[v' e']| | |] eqn:E; cbn in H; try discriminate.
+      injection H as <- <-. apply (IH _ _ _ _ n) in E; lia.
+Qed.
+
+(* every byte of the value is the content of an address in [a, e) that is not reserved *)
+Lemma read_val_sound skip : forall suf a k v e, read_val skip a suf k = Ok (v, e) ->
+  forall i, (i < k)%nat -> exists p, a <= p < e /\ in_skip skip p = false /\ nth_error v i = nth_error suf (Z.to_nat (p - a)).
+Proof.
+  induction suf as [|x suf IH]; intros a k v e H i Hi.
+  - destruct k; [lia | discriminate].
+  - destruct k as [|k]; [lia|]. cbn [read_val] in H. destruct (in_skip skip a) eqn:Es.
+    + destruct (IH _ _ _ _ H i Hi) as (p & Hp & Hs & Hn). exists p. split; [lia|]. split; [exact Hs|].
+      rewrite Hn. replace (Z.to_nat (p - a)) with (S (Z.to_nat (p - (a + 1)))) by lia. reflexivity.
+    + destruct (read_val skip (a + 1) suf k) as [[v' e']| | |] eqn:E; cbn in H; try discriminate.
+      injection H as <- <-. pose proof (read_val_bounds _ _ _ _ _ _ E) as [Hb _].
+      destruct i as [|i].
+      * exists a. split; [lia|]. split; [exact Es|]. rewrite Z.sub_diag. reflexivity.
+      * destruct (IH _ _ _ _ E i ltac:(lia)) as (p & Hp & Hs & Hn). exists p. split; [lia|]. split; [exact Hs|].
+        cbn [nth_error]. rewrite Hn. replace (Z.to_nat (p - a)) with (S (Z.to_nat (p - (a + 1)))) by lia. reflexivity.
+Qed.
+
+(* what the property demands of a reported NDEF state: tag, length field and value inside [first, dend),
+   the value read from non-reserved addresses, not longer than the capacity *)
+Definition tlv_sound (em : list Z) (first : Z) (L : layout) : Prop :=
+  exists start e,
+    first <= l_off L /\ l_off L + 2 <= start <= l_off L + 4 /\
+    read_val (l_skip L) start (skipn (Z.to_nat start) em) (length (l_val L)) = Ok (l_val L, e) /\
+    start <= e <= l_dend L /\ len (l_val L) <= l_cap L.
+
+Lemma nth_error_skipn' {A} (l : list A) : forall n i, nth_error (skipn n l) i = nth_error l (n + i).
+Proof. induction l as [|x l IH]; intros [|n] i; cbn; auto. destruct i; reflexivity. Qed.
+(* ... spelled out address by address *)
+Lemma tlv_sound_octets em first L : 0 <= first -> tlv_sound em first L ->
+  forall i, (i < length (l_val L))%nat ->
+  exists p, first + 2 <= p < l_dend L /\ in_skip (l_skip L) p = false /\ nth_error (l_val L) i = nth_error em (Z.to_nat p).
+Proof.
+  intros H0 (start & e & Hf & Hs & Hr & He & _) i Hi.
+  destruct (read_val_sound _ _ _ _ _ _ Hr i Hi) as (p & Hp & Hk & Hn). exists p. split; [lia|]. split; [exact Hk|].
+  rewrite Hn, nth_error_skipn'. f_equal. lia.
+Qed.
+
+Lemma fits_sound em first L l e : bytes_ok em -> first <= l_off L -> 0 <= first ->
+  read_tlv em (l_off L) (l_skip L) = Ok (3, l, l_val L, e) -> tlv_fits em L = true -> tlv_sound em first L.
+Proof.
+  intros Hb Hf H0 Hr Hfit. apply read_tlv_inv in Hr as (E0 & He & [[C | C] | (_ & _ & l0 & voff & E1 & Hl & Erv & Hv)]); try lia.
+  unfold tlv_fits in Hfit. set (start := l_off L + hdr_size em (l_off L)) in *.
+  assert (Hst : start = voff).
+  { unfold start, hdr_size. rewrite E1. destruct Hl as [(Hn & _ & ->) | (-> & -> & _)]; [|reflexivity].
+    destruct l0 as [|p|p]; try reflexivity. repeat (destruct p as [p|p|]; try reflexivity). congruence. }
+  pose proof (read_val_bounds _ _ _ _ _ _ Erv) as (Hb1 & Hlen & _).
+  exists start, e. rewrite Hst in *.
+  assert (Hk : Z.to_nat l = length (l_val L)) by lia.
+  split; [exact Hf|]. split; [destruct Hl as [(_ & _ & ->) | (_ & -> & _)]; lia|].
+  split; [rewrite <- Hk; exact Erv|].
+  apply andb_true_iff in Hfit as [Hfit Hcap]. apply andb_true_iff in Hfit as [Hs Hc].
+  split; [|unfold len in *; lia]. split; [lia|].
+  pose proof (read_val_fits _ _ _ _ _ _ (Z.to_nat (l_dend L - voff)) Erv) as F. unfold len in Hc. lia.
+Qed.
+
+(* ------------------------------------------------------------ Type 2 *)
+Lemma t2_read_total em : bytes_ok em -> t2_read em = Ok None \/ exists L, t2_read em = Ok (Some L).
+Proof.
+  intro Hb. unfold t2_read.
+  destruct (rd em 12) as [b12| | |]; auto. destruct (rd em 13) as [b13| | |]; auto.
+  destruct (rd em 14) as [b14| | |]; auto. destruct (rd em 15) as [b15| | |]; auto.
+  destruct (negb _); auto. destruct (negb _); auto.
+  destruct (t2_walk_total (S (length em)) em (b14 * 8 + 16) [] 16 false 16 Hb ltac:(lia)) as [-> | (o & s & v & h & -> & _)];
+    cbn [bind]; eauto.
+Qed.
+
+Theorem t2_read_safe em : bytes_ok em ->
+  t2_read_any em = Ok None \/
+  exists L, t2_read_any em = Ok (Some L) /\ tlv_sound em 16 L /\ l_dend L <= 2056.
+Proof.
+  intro Hb. unfold t2_read_any.
+  destruct (t2_read_total em Hb) as [-> | [L E]]; [left; reflexivity|]. rewrite E.
+  destruct (tlv_fits em L) eqn:F; [right | left; reflexivity]. exists L. split; [reflexivity|].
+  destruct (t2_read_inv _ _ E) as (b13 & b14 & b15 & E12 & E13 & E14 & E15 & Hv & Hd & Hw & Hc & Hrd & Hwr).
+  pose proof (t2_walk_found _ _ _ _ _ _ _ _ _ _ _ Hw) as (_ & _ & l & e & Hr).
+  destruct (t2_walk_total (S (length em)) em (l_dend L) [] 16 false 16 Hb ltac:(lia)) as [W | (o & s & v & h & W & Ho)];
+    rewrite W in Hw; [discriminate|]. injection Hw as Eo _ _ _.
+  split; [eapply fits_sound; eauto; lia|]. pose proof (rd_byte _ _ _ Hb E14). lia.
+Qed.
+
+(* the repaired reader changes nothing on a tag whose NDEF TLV fits (in particular on every layout C01-C03 are about) *)
+Theorem t2_read_any_conservative em L : t2_read em = Ok (Some L) -> tlv_fits em L = true -> t2_read_any em = t2_read em.
+Proof. intros H F. unfold t2_read_any. rewrite H, F. reflexivity. Qed.
+(* ... and before the repair the reader reported NDEF TLVs that run past the data area: a 48 byte data area
+   (16..64) on a 96 byte tag, NDEF TLV of 60 bytes: length 60 > capacity 46 *)
+Definition ex_t2_overrun : list Z :=
+  [4; 1; 2; 143; 4; 5; 6; 7; 0; 72; 0; 0; 225; 16; 6; 0; 3; 60] ++ repeat 170 60 ++ repeat 0 18.
+Lemma t2_read_overrun_refuted :
+  (exists L, t2_read ex_t2_overrun = Ok (Some L) /\ len (l_val L) = 60 /\ l_cap L = 46 /\ l_dend L = 64) /\
+  t2_read_any ex_t2_overrun = Ok None.
+Proof. split; [eexists; split; [vm_compute; reflexivity | repeat split] | vm_compute; reflexivity]. Qed.
+
+(* ------------------------------------------------------------ the instrumented Type 2 reader *)
+Lemma t2_walk_beyond : forall fuel em dend skip off inner hw, len em <= off ->
+  t2_walk fuel em dend skip off inner hw = Ok None.
+Proof.
+  induction fuel as [|f IH]; intros em dend skip off inner hw H; [reflexivity|].
+  cbn [t2_walk]. destruct (negb inner && (dend <=? off)); [reflexivity|].
+  destruct (in_skip skip off); [apply IH; lia|].
+  unfold read_tlv. rewrite rd_beyond by lia. reflexivity.
+Qed.
+Lemma t2_walk_d_fst : forall fuel em dend skip off inner hw d,
+  fst (t2_walk_d fuel em dend skip off inner hw d) = t2_walk fuel em dend skip off inner hw.
+Proof.
+  induction fuel as [|f IH]; intros em dend skip off inner hw d; [reflexivity|].
+  cbn [t2_walk_d]. destruct (len em <=? off) eqn:E.
+  { cbn [fst]. symmetry. apply t2_walk_beyond. lia. }
+  cbn [t2_walk]. destruct (negb inner && (dend <=? off)); [reflexivity|].
+  destruct (in_skip skip off); [apply IH|].
+  destruct (read_tlv em off skip) as [[[[t l] v] e]| | |]; try reflexivity.
+  destruct (t2_dispatch skip t l v) as [[skip'| |]| | |]; try reflexivity. apply IH.
+Qed.
+Theorem t2_read_d_fst em : fst (t2_read_d em) = t2_read_any em.
+Proof.
+  unfold t2_read_d, t2_read_any, t2_read.
+  destruct (rd em 12) as [b12| | |]; try reflexivity. destruct (rd em 13) as [b13| | |]; try reflexivity.
+  destruct (rd em 14) as [b14| | |]; try reflexivity. destruct (rd em 15) as [b15| | |]; try reflexivity.
+  destruct (negb (b12 =? 225)); [reflexivity|]. destruct (negb (Z.shiftr b13 4 =? 1)); [reflexivity|].
+  pose proof (t2_walk_d_fst (S (length em)) em (b14 * 8 + 16) [] 16 false 16 16) as W.
+  destruct (t2_walk_d (S (length em)) em (b14 * 8 + 16) [] 16 false 16 16) as [r d]. cbn [fst] in W. rewrite <- W.
+  destruct r as [[[[[off skip] v] hw]|]| | |]; reflexivity.
+Qed.
+
+(* the demand never exceeds what can be loaded by more than the one failing read *)
+Lemma read_tlv_d_le em off skip : 0 <= off -> read_tlv_d em off skip <= len em + 1.
+Proof.
+  intro Ho. unfold read_tlv_d.
+  destruct (rd em off) as [t| | |] eqn:E0; try lia. apply rd_inv in E0 as [H0 _].
+  destruct ((t =? 0) || (t =? 254)); [lia|].
+  destruct (rd em (off + 1)) as [l0| | |] eqn:E1; try lia. apply rd_inv in E1 as [H1 _].
+  destruct (l0 =? 255).
+  - destruct (rd em (off + 2)) as [h| | |] eqn:E2; try lia. destruct (rd em (off + 3)) as [l| | |] eqn:E3; try lia.
+    apply rd_inv in E3 as [H3 _].
+    destruct (read_val _ _ _ _) as [[v e]| | |] eqn:E; try lia. apply read_val_bounds in E as (Hb & _).
+    unfold len in *. rewrite skipn_length in Hb. lia.
+  - destruct (read_val _ _ _ _) as [[v e]| | |] eqn:E; try lia. apply read_val_bounds in E as (Hb & _).
+    unfold len in *. rewrite skipn_length in Hb. lia.
+Qed.
+Lemma t2_walk_d_le : forall fuel em dend skip off inner hw d, 0 <= off -> bytes_ok em -> d <= len em + 1 ->
+  snd (t2_walk_d fuel em dend skip off inner hw d) <= len em + 1.
+Proof.
+  induction fuel as [|f IH]; intros em dend skip off inner hw d Ho Hb Hd; [exact Hd|].
+  cbn [t2_walk_d]. destruct (len em <=? off); [cbn [snd]; destruct (inner || (off <? dend)); lia|].
+  destruct (negb inner && (dend <=? off)); [exact Hd|].
+  destruct (in_skip skip off); [apply IH; auto; lia|].
+  pose proof (read_tlv_d_le em off skip Ho) as Hr.
+  destruct (read_tlv_cases em off skip Hb Ho) as [(t & l & v & e & -> & Hl & Hv & He) | ->]; [|cbn; lia].
+  destruct (t2_dispatch skip t l v) as [[skip'| |]| | |]; cbn [snd]; try lia.
+  apply IH; auto; destruct (l <? 255); lia.
+Qed.
+Theorem t2_demand_le em : bytes_ok em -> snd (t2_read_d em) <= Z.max (len em + 1) 14.
+Proof.
+  intro Hb. unfold t2_read_d.
+  destruct (rd em 12) as [b12| | |]; cbn [snd]; try lia. destruct (rd em 13) as [b13| | |]; cbn [snd]; try lia.
+  destruct (rd em 14) as [b14| | |]; cbn [snd]; try lia. destruct (rd em 15) as [b15| | |] eqn:E15; cbn [snd]; try lia.
+  apply rd_inv in E15 as [H15 _].
+  destruct (negb (b12 =? 225)); [cbn; lia|]. destruct (negb (Z.shiftr b13 4 =? 1)); [cbn; lia|].
+  pose proof (t2_walk_d_le (S (length em)) em (b14 * 8 + 16) [] 16 false 16 16 ltac:(lia) Hb ltac:(lia)) as W.
+  destruct (t2_walk_d (S (length em)) em (b14 * 8 + 16) [] 16 false 16 16) as [r d]. cbn [snd] in W.
+  destruct r as [[[[[off skip] v] hw]|]| | |]; cbn [snd]; lia.
+Qed.
+
+(* ------------------------------------------------------------ Type 1 *)
+(* never Crash; no Hang when the fuel exceeds the distance to the end of the data area; a TLV that is
+   found is an NDEF TLV at or behind the start of the walk *)
+Lemma t1_walk_any_total : forall fuel em size skip off hw d, bytes_ok em -> 0 <= off ->
+  (Z.to_nat (size - off) < fuel)%nat ->
+  fst (t1_walk_any fuel em size skip off hw d) = Ok None \/
+  exists o s v h, fst (t1_walk_any fuel em size skip off hw d) = Ok (Some (o, s, v, h)) /\ off <= o /\
+                  exists l e, read_tlv em o s = Ok (3, l, v, e).
+Proof.
+  induction fuel as [|f IH]; intros em size skip off hw d Hb Ho Hf; [lia|].
+  cbn [t1_walk_any]. destruct (size <=? off) eqn:Es; [left; reflexivity|].
+  destruct (in_skip skip off).
+  { destruct (IH em size skip (off + 1) hw d Hb) as [-> | (o & s & v & h & -> & Hle & R)]; [lia | lia | left; reflexivity |].
+    right. exists o, s, v, h. split; [reflexivity|]. split; [lia | exact R]. }
+  destruct (read_tlv_cases em off skip Hb Ho) as [(t & l & v & e & E & Hl & Hv & He) | ->]; [|left; reflexivity].
+  rewrite E. destruct (t1_dispatch_any_cases skip t l v Hv) as [[skip'| |] D]; rewrite D.
+  - destruct (IH em size skip' (off + l + 1 + (if l <? 255 then 1 else 3)) (Z.max hw e)
+                 (Z.max d (read_tlv_d em off skip)) Hb) as [-> | (o & s & v' & h & -> & Hle & R)];
+      [destruct (l <? 255); lia | destruct (l <? 255); lia | left; reflexivity |].
+    right. exists o, s, v', h. split; [reflexivity|]. split; [destruct (l <? 255); lia | exact R].
+  - right. exists off, skip, v, hw. split; [reflexivity|]. split; [lia|].
+    apply t1_dispatch_any_found in D. subst t. eauto.
+  - left; reflexivity.
+Qed.
+
+Lemma In_firstn' {A} (x : A) : forall n l, In x (firstn n l) -> In x l.
+Proof. induction n as [|n IH]; intros [|y l] H; cbn in *; try tauto. destruct H as [H|H]; [left; exact H | right; apply IH, H]. Qed.
+
+Theorem t1_read_safe hr0 em : bytes_ok em ->
+  t1_read_any hr0 em = Ok None \/
+  exists L, t1_read_any hr0 em = Ok (Some L) /\ tlv_sound (firstn 2048 em) 12 L /\ l_dend L <= 2048.
+Proof.
+  intro Hb0. assert (Hb : bytes_ok (firstn 2048 em)).
+  { unfold bytes_ok in *. rewrite Forall_forall in *. intros x Hx. apply Hb0. eapply In_firstn'; eauto. }
+  unfold t1_read_any, t1_read_d. set (m := firstn 2048 em) in *.
+  destruct (len m <? 120); [left; reflexivity|]. destruct (negb _); [left; reflexivity|].
+  destruct (rd m 8) as [b8| | |]; try (left; reflexivity). destruct (rd m 9) as [b9| | |]; try (left; reflexivity).
+  destruct (rd m 10) as [b10| | |] eqn:E10; try (left; reflexivity). destruct (rd m 11) as [b11| | |]; try (left; reflexivity).
+  destruct (negb (b8 =? 225)); [left; reflexivity|]. destruct (negb (Z.shiftr b9 4 =? 1)); [left; reflexivity|].
+  pose proof (rd_byte _ _ _ Hb E10) as B10.
+  set (size := (b10 + 1) * 8). set (skip0 := [(104, if size =? 120 then 120 else 128)]).
+  destruct (t1_walk_any_total (S (Z.to_nat size)) m size skip0 12 12 12 Hb ltac:(lia) ltac:(lia))
+    as [W | (o & s & v & h & W & Ho & l & e & R)];
+    destruct (t1_walk_any (S (Z.to_nat size)) m size skip0 12 12 12) as [r d]; cbn [fst] in W; subst r; [left; reflexivity|].
+  cbn [fst]. match goal with |- context [tlv_fits m ?LL] => set (L := LL) end.
+  destruct (tlv_fits m L) eqn:F; [right | left; reflexivity]. exists L. split; [reflexivity|].
+  split; [|unfold L; cbn [l_dend]; unfold size; lia].
+  apply (fits_sound m 12 L l e Hb); auto; unfold L; cbn [l_off l_skip l_val]; auto; lia.
+Qed.
+
+(* the demand of the Type 1 reader: never beyond the 2048 addressable bytes (plus the failing read) *)
+Lemma t1_walk_any_le : forall fuel em size skip off hw d, 0 <= off -> bytes_ok em -> d <= len em + 1 ->
+  snd (t1_walk_any fuel em size skip off hw d) <= len em + 1.
+Proof.
+  induction fuel as [|f IH]; intros em size skip off hw d Ho Hb Hd; [exact Hd|].
+  cbn [t1_walk_any]. destruct (size <=? off); [exact Hd|].
+  destruct (in_skip skip off); [apply IH; auto; lia|].
+  pose proof (read_tlv_d_le em off skip Ho) as Hr.
+  destruct (read_tlv_cases em off skip Hb Ho) as [(t & l & v & e & -> & Hl & Hv & He) | ->]; [|cbn; lia].
+  destruct (t1_dispatch_any skip t l v) as [[skip'| |]| | |]; cbn [snd]; try lia.
+  apply IH; auto; destruct (l <? 255); lia.
+Qed.
+Theorem t1_demand_le hr0 em : bytes_ok em -> snd (t1_read_d hr0 em) <= 2049.
+Proof.
+  intro Hb0. assert (Hb : bytes_ok (firstn 2048 em)).
+  { unfold bytes_ok in *. rewrite Forall_forall in *. intros x Hx. apply Hb0. eapply In_firstn'; eauto. }
+  assert (Hl : len (firstn 2048 em) <= 2048) by (unfold len; rewrite firstn_length; lia).
+  unfold t1_read_d. set (m := firstn 2048 em) in *.
+  destruct (len m <? 120) eqn:E120; [cbn; lia|]. destruct (negb _); [cbn; lia|].
+  destruct (rd m 8) as [b8| | |]; cbn [snd]; try lia. destruct (rd m 9) as [b9| | |]; cbn [snd]; try lia.
+  destruct (rd m 10) as [b10| | |]; cbn [snd]; try lia. destruct (rd m 11) as [b11| | |]; cbn [snd]; try lia.
+  destruct (negb (b8 =? 225)); [cbn; lia|]. destruct (negb (Z.shiftr b9 4 =? 1)); [cbn; lia|].
+  set (size := (b10 + 1) * 8). set (skip0 := [(104, if size =? 120 then 120 else 128)]).
+  pose proof (t1_walk_any_le (S (Z.to_nat size)) m size skip0 12 12 12 ltac:(lia) Hb ltac:(lia)) as W.
+  destruct (t1_walk_any (S (Z.to_nat size)) m size skip0 12 12 12) as [r d]. cbn [snd] in W.
+  destruct r as [[[[[off skip] v] hw]|]| | |]; cbn [snd]; lia.
+Qed.
+(* at most RALL, READ8 and 15 RSEG commands, the last one sent three times *)
+Theorem t1_read_cmds hr0 em : bytes_ok em -> t1_cmds_max (snd (t1_read_d hr0 em)) <= 20.
+Proof.
+  intro Hb. pose proof (t1_demand_le hr0 em Hb) as H. unfold t1_cmds_max.
+  destruct (120 <? _), (128 <? _); lia.
+Qed.
+
+(* the reader as it was (Model/T1T.v): errors and crashes leave the TLV walk, values run past the data area *)
+Definition ex_t1_short_lock : list Z := [1; 2; 3; 4; 5; 6; 7; 0; 225; 16; 14; 0; 1; 0; 3; 0] ++ repeat 0 104.
+Definition ex_t1_beyond : list Z := [1; 2; 3; 4; 5; 6; 7; 0; 225; 16; 14; 0; 3; 200] ++ repeat 0 106.
+Definition ex_t1_overrun : list Z := [1; 2; 3; 4; 5; 6; 7; 0; 225; 16; 31; 0; 3; 255; 1; 0] ++ repeat 7 496.
+Lemma t1_read_legacy_refuted :
+  t1_read 17 ex_t1_short_lock = Crash IndexErr /\ (exists L, t1_read_any 17 ex_t1_short_lock = Ok (Some L) /\ l_val L = []) /\
+  t1_read 17 ex_t1_beyond = Err (TagCommandError 0) /\ t1_read_any 17 ex_t1_beyond = Ok None /\
+  (exists L, t1_read 18 ex_t1_overrun = Ok (Some L) /\ len (l_val L) = 256 /\ l_cap L = 218) /\
+  t1_read_any 18 ex_t1_overrun = Ok None.
+Proof.
+  split; [vm_compute; reflexivity|]. split; [eexists; split; vm_compute; reflexivity|].
+  split; [vm_compute; reflexivity|]. split; [vm_compute; reflexivity|].
+  split; [eexists; split; [vm_compute; reflexivity | split; reflexivity] | vm_compute; reflexivity].
+Qed.
